@@ -274,6 +274,16 @@ func c13RunOnce(ops []WOp, level int, calls []int, probe bool, choices []bool, k
 	res.before = c13Fingerprint(e)
 	events = nil
 	attempts = 0
+	// the kind of failure of this run (a function of the run): rotating, or one kind throughout - two destinations
+	// that fail one after the other then fail in the same way, with errors of the same dynamic type
+	nf := 0
+	for _, b := range choices {
+		if b {
+			nf++
+		}
+	}
+	faultFlavour = (level+len(calls)+nf)%5 - 1
+	defer func() { faultFlavour = -1 }()
 	inCall := 0
 	scheduled := true
 	var fails []bool
@@ -813,7 +823,7 @@ func runC13(r *Run) {
 	r.Extra["exhaustive_space"] = fmt.Sprintf("%d configurations x %d logger levels x %d call sequences (length 1..3 over %d severity classes, plus a recovery probe) x every fail/succeed assignment to the first %d Write attempts (then all succeed) + the schedule on which every attempt fails",
 		len(chosen), len(c13Levels), len(seqs), len(c13Sevs), k)
 	r.Extra["correspondence_sample_per_mille"] = perM
-	r.Rule = "writer sets with 1-3 normal, 1-3 error, 0/1/3 writers for a leveled severity and 0/1/2 for Warn itself (81 configurations; quick: 27 of them) x logger level in {Error, Warn, Info, Always, Off} (in every other batch the writers added after the first of the normal / error class are handed over as ONE slog.LWs group, the destinations and their order being the same) x every sequence of 1-3 calls over {Info, Error, Warn, leveled OK, registered error-device level 13} followed by a recovery probe x ALL assignments of fail/succeed to the first K Write attempts (K=5 quick, 8 thorough; enumerated depth-first over the attempts that occur, later attempts succeed) plus the every-attempt-fails schedule; each batch in a child process (stack limit, timeout, per-call attempt bound); the direct oracle runs on every schedule, a pseudo-random share of the (configuration, level, sequence) groups goes to the Coq model with all their schedules; non-trivial = at least one Write failed; distinct by construction (configuration, level, severities, schedule are enumerated without repetition)"
+	r.Rule = "writer sets with 1-3 normal, 1-3 error, 0/1/3 writers for a leveled severity and 0/1/2 for Warn itself (81 configurations; quick: 27 of them) x logger level in {Error, Warn, Info, Always, Off} (in every other batch the writers added after the first of the normal / error class are handed over as ONE slog.LWs group, the destinations and their order being the same) x every sequence of 1-3 calls over {Info, Error, Warn, leveled OK, registered error-device level 13} followed by a recovery probe x ALL assignments of fail/succeed to the first K Write attempts (K=5 quick, 8 thorough; enumerated depth-first over the attempts that occur, later attempts succeed) plus the every-attempt-fails schedule; a failing Write returns (0, err), (n/2, io.ErrShortWrite), (n/2, err) or an error of an uncomparable type, rotating or one kind for the whole run; each batch in a child process (stack limit, timeout, per-call attempt bound); the direct oracle runs on every schedule, a pseudo-random share of the (configuration, level, sequence) groups goes to the Coq model with all their schedules; non-trivial = at least one Write failed; distinct by construction (configuration, level, severities, schedule are enumerated without repetition)"
 }
 
 func replayC13(r *Run, file string) {
